@@ -116,12 +116,14 @@ transcript) or fails having written nothing but the request. -/
 theorem c03_outcome_total (sup : List String) (pref : Option String) (ans : Answer) (hne : sup ≠ []) :
     (∃ v, (clientInit sup pref ans).1 = .ok v) ∨
     ((clientInit sup pref ans).1 = .mismatch ∨ (clientInit sup pref ans).1 = .invalid
-      ∨ (∃ c, (clientInit sup pref ans).1 = .rpcFailed c) ∨ (clientInit sup pref ans).1 = .timedOut) := by
+      ∨ (∃ c, (clientInit sup pref ans).1 = .rpcFailed c) ∨ (clientInit sup pref ans).1 = .timedOut
+      ∨ (clientInit sup pref ans).1 = .transportFailed) := by
   obtain ⟨p, hp⟩ := proposed_isSome pref hne
   unfold clientInit
   rw [hp]
   cases ans with
   | silence => simp
+  | closed => simp
   | malformed => simp
   | rpcError c m => simp only []; split <;> simp
   | version s => simp only []; split <;> simp
@@ -182,6 +184,7 @@ theorem c03_success_implies_handed (sup : List String) (pref : Option String) (a
     obtain ⟨p, hp, ht, _⟩ := c03_initialized_exactly_once_on_success sup pref ans v' t' hc
     cases ws with
     | never => simp at h
+    | refuses => simp at h
     | accepts d =>
       simp only [Prod.mk.injEq, Outcome.ok.injEq] at h
       refine ⟨p, d, rfl, hp, ?_, ?_⟩
@@ -240,6 +243,9 @@ theorem c03_handed_only_on_success (sup : List String) (pref : Option String) (a
       | never =>
         have : t = (clientInit sup pref ans).2 := by rw [hc]
         exact absurd (this ▸ hm) hclean
+      | refuses =>
+        have : t = (clientInit sup pref ans).2 := by rw [hc]
+        exact absurd (this ▸ hm) hclean
     · exact absurd hm hclean
   · intro d hd
     subst hd
@@ -271,7 +277,10 @@ example : clientInitW ["2025-06-18", "2024-11-05"] none (.version "2024-11-05") 
     ∧ clientInitW ["2025-06-18", "2024-11-05"] none (.version "2024-11-05") .never
       = (.blocked, [.sent (.initialize "2025-06-18"), .answered, .sent .initialized])
     ∧ clientInitW ["2025-06-18"] none (.version "2024-11-05") .never
-      = (.mismatch, [.sent (.initialize "2025-06-18"), .answered]) := by decide
+      = (.mismatch, [.sent (.initialize "2025-06-18"), .answered])
+    ∧ clientInitW ["2025-06-18"] none (.version "2025-06-18") .refuses
+      = (.transportFailed, [.sent (.initialize "2025-06-18"), .answered, .sent .initialized])
+    ∧ clientInit ["2025-06-18"] none .closed = (.transportFailed, [.sent (.initialize "2025-06-18")]) := by decide
 
 /-- Counter-model: with the send wrapped in `move_on_after T` (NOT the code) the statement fails —
 a write side slower than `T` gives a success although nothing was handed over. -/
@@ -282,6 +291,62 @@ example : clientInitMoveOn 1024 true ["2025-06-18"] none (.version "2025-06-18")
     ∧ (clientInitMoveOn 1024 true ["2025-06-18"] none (.version "2025-06-18") .never).1 = .ok "2025-06-18"
     ∧ clientInitMoveOn 1024 true ["2025-06-18"] none (.version "2025-06-18") (.accepts 1023)
       = clientInitW ["2025-06-18"] none (.version "2025-06-18") (.accepts 1023) := by decide
+
+/-- A write side that refuses the notification (the peer closed that direction after answering):
+the call fails — it is not a success — and nothing was handed over. -/
+theorem c03_refusing_writer_never_success (sup : List String) (pref : Option String) (ans : Answer) :
+    (∀ v, (clientInitW sup pref ans .refuses).1 ≠ .ok v)
+    ∧ Ev.handed ∉ (clientInitW sup pref ans .refuses).2 := by
+  constructor
+  · intro v hv
+    have : clientInitW sup pref ans .refuses = (.ok v, (clientInitW sup pref ans .refuses).2) := by
+      rw [← hv]
+    obtain ⟨_, _, hw, _⟩ := c03_success_implies_handed _ _ _ _ _ _ this
+    cases hw
+  · intro hm
+    obtain ⟨v, hv⟩ := (c03_handed_only_on_success sup pref ans .refuses).1 hm
+    have : clientInitW sup pref ans .refuses = (.ok v, (clientInitW sup pref ans .refuses).2) := by
+      rw [← hv]
+    obtain ⟨_, _, hw, _⟩ := c03_success_implies_handed _ _ _ _ _ _ this
+    cases hw
+
+/-- Consecutive calls on the same streams with the same tracked client: every call is a fresh
+negotiation — its outcome and transcript are those of that call alone, whatever happened
+before — and after every SUCCESSFUL call the tracked client holds that call's version with the
+mode belonging to it (a failed call leaves the client's state as it was). -/
+theorem c03_sequence_each_call_fresh (parse : String → Option (Int × Int × Int))
+    (steps : List ClientStep) (tr : Tracked) :
+    (runClientSeq parse tr steps).map (fun r => (r.1, r.2.1))
+      = steps.map (fun s => clientInit s.1 s.2.1 s.2.2)
+    ∧ ∀ r ∈ runClientSeq parse tr steps, ∀ v, r.1 = .ok v → r.2.2 = some (v, batchingOf parse v) := by
+  induction steps generalizing tr with
+  | nil => simp [runClientSeq]
+  | cons s rest ih =>
+    obtain ⟨sup, pref, ans⟩ := s
+    have hfst : ((trackedInit parse sup pref ans).1, (trackedInit parse sup pref ans).2.1)
+        = clientInit sup pref ans := by
+      unfold trackedInit
+      split
+      · rename_i v t hc; rw [hc]
+      · rename_i o t _ hc; rw [hc]
+    refine ⟨?_, ?_⟩
+    · simp only [runClientSeq, List.map_cons, (ih _).1, hfst]
+    · intro r hr v hv
+      simp only [runClientSeq, List.mem_cons] at hr
+      rcases hr with hr | hr
+      · subst hr
+        simp only at hv
+        have h3 := (c03_tracking_mode parse sup pref ans).1 v (trackedInit parse sup pref ans).2.1
+          (trackedInit parse sup pref ans).2.2 (by rw [← hv])
+        simp [h3.1]
+      · exact (ih _).2 r hr v hv
+
+example : (runClientSeq parseDate none
+      [(["2025-06-18", "2025-03-26"], none, .version "2025-03-26"),
+       (["2025-06-18", "2025-03-26"], none, .version "2026-01-01"),
+       (["2025-06-18", "2025-03-26"], none, .version "2025-06-18")]).map (fun r => (r.1, r.2.2))
+    = [(.ok "2025-03-26", some ("2025-03-26", true)), (.mismatch, some ("2025-03-26", true)),
+       (.ok "2025-06-18", some ("2025-06-18", false))] := by decide
 
 /-- Instance: when the caller passes no list the client offers the library's own list
 (regenerated); it is non-empty and contains no empty string, so every theorem above applies,
